@@ -251,8 +251,14 @@ def viaValue : Bytes := b "1.1 " ++ Px.Gen.proxyAgentHeaderValue
 
 def STRIP : List Bytes := [Auth.PROXY_AUTHORIZATION, Auth.PROXY_CONNECTION]
 
+/-- the `Via` value of the forwarded first request: appended to a `Via` the client sent -/
+def viaFor (r : Req) : Bytes :=
+  match hVal? r.headers (lower (b "via")) with
+  | some v => v ++ b ", " ++ viaValue
+  | none => viaValue
+
 /-- header treatment of the first request before `build` -/
-def fwdFirst (r : Req) : Req := (r.delHeaders STRIP).addHeader (b "Via") viaValue
+def fwdFirst (r : Req) : Req := (r.delHeaders STRIP).addHeader (b "Via") (viaFor (r.delHeaders STRIP))
 
 /-- header treatment of follow-up requests before `build` (no `Via`) -/
 def fwdLater (r : Req) : Req := r.delHeaders STRIP
